@@ -63,3 +63,55 @@ Proof. exact agree_const_example. Qed.
 Theorem C13_agree_enum_nonvacuous : forall cls,
   forallb (accepted cls [KReq; KEnum [[65;67;84]; [65;67;84;73;86;69]; [97;32;98]]]) [[65;67;84]; [65;67;84;73;86;69]; [97;32;98]] = true.
 Proof. exact agree_enum_example. Qed.
+
+(* ---- TYPE[NUMBER]: closed in Gbnf/NumberAgree.v (for digit strings of every length) -------------------------- *)
+From OV Require Import Gbnf.NumberAgree.
+
+(* the derivations of the NUMBER fragment are exactly the texts  "-"? digits ("." digits)?  (decidable shape) *)
+Theorem C13_number_derivations : forall w, derives frag_number w <-> gnum_ok w = true.
+Proof. exact derives_number_iff. Qed.
+
+(* every derivation is lexed as IDENTIFIER ASSIGN NUMBER EOF and read as the NUMBER token's value *)
+Theorem C13_agree_number_read : forall cls w, derives frag_number w -> read_value cls w = num_value w.
+Proof. exact agree_number_read. Qed.
+
+(* the statement kept open above is proved *)
+Theorem C13_agree_number_closes_OPEN : C13_agree_number_OPEN.
+Proof. exact agree_number_typed. Qed.
+
+(* agreement: a derivation within CPython's 4300-digit integer limit (every float, every integer of at most 4300
+   digits) is read as the int / float with that lexeme and accepted under [K] [REQ,K] [OPT,K] [K,REQ] *)
+Theorem C13_agree_number : forall cls w, derives frag_number w -> in_limit w = true ->
+  (exists v, read_value cls w = v /\ (v = RInt w \/ v = RFloat w) /\ is_number v = true) /\
+  forallb (fun ch => accepted cls ch w) num_chains = true.
+Proof. exact agree_number. Qed.
+
+(* the excluded class, decided exactly: an integer derivation of more than 4300 digits is refused by the reader
+   and rejected by every chain (finding C13-number-int-limit) *)
+Theorem C13_agree_number_overlimit : forall cls w, derives frag_number w -> in_limit w = false ->
+  read_value cls w = RErr /\ forall ch, accepted cls ch w = false.
+Proof. exact agree_number_overlimit. Qed.
+
+(* the full statement (no limit) is false of the faithful model: witness 9 x 4301 *)
+Definition C13_agree_number_full : Prop :=
+  forall cls w, derives frag_number w -> forallb (fun ch => accepted cls ch w) num_chains = true.
+Theorem C13_agree_number_refuted :
+  derives frag_number w_overlimit /\
+  forall cls, read_value cls w_overlimit = RErr /\ accepted cls [KTypeNum] w_overlimit = false.
+Proof. exact agree_number_refuted. Qed.
+Theorem C13_agree_number_full_false : ~ C13_agree_number_full.
+Proof. exact agree_number_full_false. Qed.
+
+(* non-vacuity: 0  -12  3.14  007  -0.50 are derivable, within the limit, read as numbers and accepted; the boundary *)
+Theorem C13_agree_number_nonvacuous : forall cls,
+  Forall (fun w => derives frag_number w /\ in_limit w = true /\ is_number (read_value cls w) = true /\
+                   forallb (fun ch => accepted cls ch w) num_chains = true) number_examples.
+Proof. exact agree_number_nonvacuous. Qed.
+Theorem C13_agree_number_values : forall cls,
+  map (read_value cls) number_examples =
+  [RInt [48]; RInt [45;49;50]; RFloat [51;46;49;52]; RInt [48;48;55]; RFloat [45;48;46;53;48]].
+Proof. exact agree_number_values. Qed.
+Theorem C13_agree_number_boundary : forall cls,
+  in_limit (repeat 57 4300) = true /\ derives frag_number (repeat 57 4300) /\
+  read_value cls (repeat 57 4300) = RInt (repeat 57 4300).
+Proof. exact agree_number_boundary. Qed.
